@@ -197,7 +197,7 @@ func (c *vC12) checkIncluded(b *vBlock, tamper func(*vRefBlob) bool) {
 		}
 		o := own[i]
 		run(vInclCase{"own", "", r.NS, r.Commitment, &o}, false)
-		if !tamper(r) {
+		if !tamper(r) || c.expired() {
 			continue
 		}
 		// claim operators with the blob's own proof
